@@ -239,6 +239,30 @@ def run_case(case, work, rec):
                 got = [row.split(" : ")[0].strip() for row in rows if " : " in row]
                 if sorted(got) != sorted(set(reps)):
                     probs.append(f"description table lists {sorted(got)}; expected {sorted(set(reps))}")
+        elif od == "every":
+            # the table of all known fields: a name is flagged present exactly when a header field is represented by it
+            rows, _ = boxed(out.split("All known fields:")[-1], "Present") if "All known fields:" in out else (None, None)
+            if rows is None:
+                rec.undecided("menu table of all known fields not recognised (output layout changed?)")
+                continue
+            flags = {}
+            twice = []
+            for row in rows:
+                if " : " not in row:
+                    continue
+                t = row.split(" : ")[0].split()
+                if len(t) >= 2 and t[-1] in ("Yes", "No"):
+                    nm = " ".join(t[:-1])
+                    if nm in flags:
+                        twice.append(nm)
+                    flags[nm] = t[-1] == "Yes"
+            if not flags:
+                rec.undecided("menu table of all known fields not recognised (output layout changed?)")
+                continue
+            yes = sorted(k for k, v in flags.items() if v)
+            if yes != sorted(set(reps)) or twice:
+                probs.append(f"table of all known fields flags {yes} as present; the header fields are represented by "
+                             f"{sorted(set(reps))} (listed twice: {twice})")
         elif od == "has_var":
             if f"'{reps[0]}' found" not in out or "'not_there' not found" not in out:
                 probs.append(f"search results wrong: {out.strip()[:200]}")
